@@ -180,7 +180,10 @@ C02(pre, ev, post, aux) ==
     \cup C("C02.NothingInvented", Range(occ) \subseteq LeafIds(post))
     \cup C("C02.SingleSlot", \A d \in Devs : Kind(d) \in {"handler", "processor", "sink", "source"}
                                  => ~(post.dev[d].inp # 0 /\ post.dev[d].out # 0))
-    \cup C("C02.SinkCountsEveryPart", \A d \in Sinks : post.dev[d].count = Len(Delivered(post, d)))
+    \* a sink counts the members of a batch (Sink: len(part.parts)); for the batches of batches of the `nested-batch`
+    \* family the members are the inner batches, the census above still follows every leaf
+    \cup C("C02.SinkCountsEveryPart", \A d \in Sinks :
+                post.dev[d].count = SeqSum([i \in DOMAIN post.dev[d].collected |-> NLeaves(post, post.dev[d].collected[i])]))
     \cup C("C02.BudgetRespected", \A s \in Sources : a1.budget[s] # None => post.dev[s].supplied <= a1.budget[s])
     \cup C("C02.LostOnlyByFailure", post.lost # pre.lost => (IsStep(ev) /\ ev.kind = "fail"))
 
@@ -545,7 +548,8 @@ C17(pre, ev, post, aux) ==
     \cup C("C17.AcceptsOnlyWhenEmpty",
            \A b \in Batchers : Occ(ev, "recv", b) # <<>> => (pre.dev[b].inp = 0 /\ pre.dev[b].out = 0))
     \cup C("C17.BuffersAndSinksCountEveryPart",
-           /\ \A d \in Sinks : post.dev[d].count - pre.dev[d].count = Len(ArrivedLeaves(pre, ev, d))
+           /\ \A d \in Sinks : LET rc == Occ(ev, "recv", d) IN
+                   post.dev[d].count - pre.dev[d].count = SeqSum([i \in DOMAIN rc |-> NLeaves(pre, rc[i][3])])
            /\ \A d \in Buffers : post.dev[d].level = BufLeaves(post, d))
 
 (***************************************************************************)
